@@ -519,6 +519,34 @@ def rearrange_tail(ctx, rule):
     rule.check(okb, ctx.construct(f, extra='first state command'),
                'the FIRST state-changing command is not the cut point',
                ctx.loc(f))
+    # the cut point is an index into the list it was found in: between the
+    # search and every use of the index the list is not rebuilt (filtered,
+    # sorted into a new list, ...) - otherwise the slices are shifted
+    loops = [x for x in own_nodes(f.node) if isinstance(x, ast.For) and
+             any(x_ is i_.ast for i_ in idx for x_ in ast.walk(x))]
+    oki = len(loops) == 1
+    if oki:
+        lp = loops[0]
+        src = [y for y in ast.walk(lp.iter) if isinstance(y, ast.Name) and
+               y.id not in ('enumerate', 'reversed', 'list', 'iter',
+                            'range', 'len', 'zip')]
+        oki = len(src) == 1
+        if oki:
+            lst = src[0].id
+            rd = U.reaching_defs(cfg, lst)
+            at_search = rd[cfg.node_of(lp.iter).id] if cfg.node_of(lp.iter) \
+                is not None else None
+            uses = [y for y in own_nodes(f.node)
+                    if isinstance(y, ast.Subscript) and
+                    dotted(y.value) == lst and
+                    'state_cmd_idx' in U.names_in(y.slice)]
+            oki = at_search is not None and bool(uses) and all(
+                rd[cfg.node_of(u).id] == at_search for u in uses)
+    rule.check(oki, ctx.construct(f, extra='index and slices on one list'),
+               'the position of the state command is searched in one '
+               'version of the command list and applied to another (the '
+               'list is rebuilt in between): the command after `pause` is '
+               'cut off / the pause is duplicated', ctx.loc(f))
 
 
 def _class_attrs(prog, cq):
